@@ -419,6 +419,22 @@ func c01RoundOpt(r *fw.Run, g *Rig, prop string, cc *c01Case, exact bool, barrie
 	return viol
 }
 
+// builtinFlood: one scripted call (so that the other connections of the round can tell when this one is being served)
+// followed, in the same write, by 1 200 GetInterfaceDescription / GetInfo calls: about 2 MB of answers from the built-in
+// interface that the client never reads (seeded change C10-O: built-in replies written under the service mutex).
+func builtinFlood(id string) []byte {
+	first := &CallScript{ID: id, Steps: []Step{{Op: "reply"}}}
+	data, _, _ := streamOf([]GenCall{{Method: "org.example.script.First", Script: first}}, 0)
+	for i := 0; i < 1200; i++ {
+		if i%8 == 7 {
+			data = append(data, "{\"method\":\"org.varlink.service.GetInfo\"}\x00"...)
+		} else {
+			data = append(data, "{\"method\":\"org.varlink.service.GetInterfaceDescription\",\"parameters\":{\"interface\":\"org.varlink.service\"}}\x00"...)
+		}
+	}
+	return data
+}
+
 func runC01(r *fw.Run) {
 	rng := rand.New(rand.NewSource(r.Seed*1000003 + 1))
 	jg := &JGen{R: rng, Timed: true}
@@ -501,7 +517,14 @@ func runC01(r *fw.Run) {
 			tagN++
 			big := &CallScript{ID: fmt.Sprintf("stall%d", tagN), Pad: json.RawMessage(jg.BigString(3 << 20)), Steps: []Step{{Op: "reply", Cont: true}, {Op: "reply"}}}
 			data, _, _ := streamOf([]GenCall{{Method: "org.example.script.Big", Flags: "m", Script: big}}, 0)
-			cc.Conns = append(cc.Conns, &ConnScript{Stream: data, Cut: -1, Stall: true, What: "client stops reading during a 3 MiB reply"})
+			what := "client stops reading during a 3 MiB reply"
+			if k%2 == 1 {
+				data, what = builtinFlood(big.ID), "client pipelines 1 200 introspection calls and reads none of the answers"
+			}
+			cc.Conns = append(cc.Conns, &ConnScript{Stream: data, Cut: -1, Stall: true, What: what})
+			if k%2 == 1 {
+				cc.Conns = append(cc.Conns, &ConnScript{Calls: []GenCall{{Method: "org.varlink.service.GetInfo"}, {Method: "org.varlink.service.GetInterfaceDescription", Params: `{"interface":"org.example.script"}`}}, WaitFor: big.ID})
+			}
 			for j := 0; j < 2+rng.Intn(4); j++ {
 				tagN++
 				cs := genConnScript(rng, jg, fmt.Sprintf("c%d", tagN), 5, cf.tr != "tcp")
